@@ -110,6 +110,16 @@ pub static COLLECTION_ENABLED: AtomicBool = AtomicBool::new(true);
 /// Set while the harness thread is inside block_for_gc.
 pub static BLOCKED: AtomicBool = AtomicBool::new(false);
 
+/// Collection count when the harness thread last entered an MMTk call that may request a
+/// collection (see `block_for_gc`).
+pub static REQUEST_BASE: AtomicU64 = AtomicU64::new(0);
+
+/// Call before any MMTk call that may request a collection.
+pub fn note_request_base() {
+    let c = with_state(|s| s.gc_count);
+    REQUEST_BASE.store(c, Ordering::SeqCst);
+}
+
 pub fn with_state<R>(f: impl FnOnce(&mut VmState) -> R) -> R {
     let mut g = STATE.lock().unwrap_or_else(|p| p.into_inner());
     f(g.as_mut().expect("VM state not initialised"))
@@ -425,10 +435,13 @@ impl Collection<VerifVM> for VerifVM {
     fn block_for_gc(tls: VMMutatorThread) {
         let v = tls_value(tls.0);
         let mut g = STATE.lock().unwrap_or_else(|p| p.into_inner());
+        // The collection this call waits for may already have finished by the time the mutator
+        // gets here (workers are woken by the request itself), so the baseline is the count
+        // recorded before the request was made (`note_request_base`), not the count now.
         let start_count = {
             let s = g.as_mut().unwrap();
             s.events.push(VmEvent::BlockForGcEnter(v));
-            s.gc_count
+            REQUEST_BASE.load(Ordering::SeqCst)
         };
         BLOCKED.store(true, Ordering::SeqCst);
         // wait until a collection that started after the request has resumed the mutators
@@ -448,7 +461,9 @@ impl Collection<VerifVM> for VerifVM {
             }
         }
         BLOCKED.store(false, Ordering::SeqCst);
-        g.as_mut().unwrap().events.push(VmEvent::BlockForGcExit(v));
+        let s = g.as_mut().unwrap();
+        REQUEST_BASE.store(s.gc_count, Ordering::SeqCst);
+        s.events.push(VmEvent::BlockForGcExit(v));
     }
 
     fn spawn_gc_thread(_tls: VMThread, ctx: GCThreadContext<VerifVM>) {
